@@ -102,7 +102,14 @@ pub fn check(t: &Trace<'_>, out: &mut CaseOut) -> bool {
         let ops: Vec<(usize, &OpRec)> = t.log.ops.iter().enumerate().filter(|(_, o)| o.conn == Some(c.idx)).collect();
         // bytes left behind by an abandoned QoS 0 publish (documented as not cancel-safe) or by a
         // runaway call make the framing of everything after them meaningless
-        if ops.iter().any(|(_, o)| matches!(o.outcome, Outcome::Cancelled | Outcome::Watchdog) && o.out_after > o.out_before) {
+        if *off != 0 && ops.iter().any(|(_, o)| matches!(o.outcome, Outcome::Cancelled | Outcome::Watchdog) && o.out_after > o.out_before) {
+            continue;
+        }
+        // the CONNECT itself (whatever connect() then returned: a broker cannot answer it)
+        if *off == 0 {
+            if let Some((i, o)) = ops.iter().find(|(_, o)| o.kind == "connect" && o.out_after > 0) {
+                out.violations.push(viol("C09", "C09/connect/undecodable", format!("op#{} connect returned {:?}; the broker cannot decode the CONNECT it wrote: {}", i, o.outcome, why)));
+            }
             continue;
         }
         if let Some((i, o)) = ops.iter().find(|(_, o)| o.out_before <= *off && *off < o.out_after) {
